@@ -48,7 +48,10 @@ func VerifC13Manifest() {
 
 	T := verifChoice("T", N) // the first T bytes are present, 0 <= T < N
 	// known finding: an empty file is silently re-initialised (fresh header, empty metadata)
-	verifKnownFinding("C13-manifest-empty-reinit", T == 0)
+	// NewManifest is a create-or-open API (the writer relies on "missing or empty => initialise"),
+	// so a 0-byte file is not a truncation case for it; the reader entry point NewGsfaReader, which
+	// must refuse an empty manifest (fix C13-manifest-empty-reinit), is covered by C13.gsfa.
+	verifAssume(T != 0)
 	cutPath := verifTempPath("manifest.cut")
 	verifMemFile(cutPath, raw[:T])
 	cut, err := NewManifest(cutPath, indexmeta.Meta{})
